@@ -315,13 +315,35 @@ def c17(tier):
 
 
 # ------------------------------------------------------------------------------------------------ C07
+EXTRA_TOKENS = [';', ')', 'end', 'begin', '(', 'let', '=', '<-', 'else', '.', '99999999999', '-', 'this', 'print', 'function', '+', 'then', ',', '[', ']', 'object', 'extends', '->', 'null', '"s"', 'array', 'while', 'do', '-1', 'if']
+
+
+def mutate_token_list(toks, rng):
+    t = list(toks)
+    if not t:
+        return t
+    for _ in range(1 if rng.random() < 0.8 else 2):
+        i = rng.randrange(len(t))
+        c = rng.random()
+        if c < 0.3 and len(t) > 1:
+            del t[i]
+        elif c < 0.5:
+            t.insert(i, t[i])
+        elif c < 0.7 and i + 1 < len(t):
+            t[i], t[i + 1] = t[i + 1], t[i]
+        else:
+            t[i] = rng.choice(t + EXTRA_TOKENS)
+    return t
+
+
 def c07(tier):
     chk = Check('C07', tier)
     chk.rule = ('spec->impl: TLC enumerates (MC_Syntax) all 13^3 operator triples, all operator pairs with one operand replaced by each of 9 operand forms at each position, all '
                 'unparenthesised if/then/else texts to depth 3, and postfix chains (read and assigned); the tree is prescribed by FMLSyntax (precedence climbing, nearest-if, left '
                 'nesting). impl->spec: seeded random ASTs in the parser range and the ASTs the parser produced for the in-repo corpus are printed back minimally, fully parenthesised '
                 'and with whitespace / line-comment / block-comment (UTF-8) decorations at token boundaries, and parsed again. TLC (TraceParse) compares the trees and checks '
-                'InParserRange. distinct_nontrivial = distinct source texts parsed and judged.')
+                'InParserRange. Arbitrary token sequences (valid programs and 4 token-level mutations of each): the TLA+ grammar FMLParser (recursive descent over the whole language) says which '
+                'are programs and which tree they denote, the real parser must accept exactly those and return that tree (TraceParseTokens). distinct_nontrivial = distinct source texts parsed and judged.')
     exe = build('debug')
     wd = scratch('c07')
     r = tlc_or_die('MC_Syntax', workers=8, timeout=1800)
@@ -385,6 +407,42 @@ def c07(tier):
                 chk.violation('%s: %s' % (name[:160], v), {'case': name, 'source': text[:3000], 'expected_ast': exp if len(json.dumps(exp)) < 6000 else 'large',
                                                       'parsed_ast': rec['parsed'] if len(json.dumps(rec['parsed'])) < 6000 else 'large',
                                                       'parse_msg': outs[rec['id']].get('parse_msg', '')[:300], 'signature': {'kind': 'parse', 'verdict': v}})
+    # arbitrary token sequences: the TLA+ grammar FMLParser says which are programs (and which tree); the real parser must agree
+    from unparse import tokens_of, classify
+    tcases = []
+    for name, ast in asts[:tier_sizes(tier, 300, 6000)]:
+        toks = tokens_of(copy.deepcopy(ast), full=(rng.random() < 0.2), elseless=(rng.random() < 0.7))
+        tcases.append(('tokens:' + name, toks))
+        for _ in range(4):
+            t2 = mutate_token_list(toks, rng)
+            tcases.append(('tokens-mutated:' + name, t2))
+    touts = run_harness(exe, 'run', [{'id': i, 'text': ' '.join(c[1]), 'want': ['ast', 'parseonly']} for i, c in enumerate(tcases)], wd, tag='c07k', jobs=16)
+    trecs = []
+    for i, o in enumerate(touts):
+        cl = [classify(x) for x in tcases[i][1]]
+        if any(c is None for c in cl):
+            continue
+        trecs.append({'id': i, 'toks': cl, 'status': 'panic' if o.get('crash') is not None else o.get('parse', 'panic'), 'parsed': o.get('ast', {'t': 'none'})})
+        chk.count(hashlib.sha1(' '.join(tcases[i][1]).encode()).hexdigest())
+    tcounts = {}
+    for b in range(0, len(trecs), 5000):
+        part = trecs[b:b + 5000]
+        tpath = os.path.join(wd, 'toks.%d.ndjson' % b)
+        write_ndjson(tpath, part)
+        rk = tlc_or_die('TraceParseTokens', env={'TOKS': tpath}, workers=12, timeout=1800, tag='c07k')
+        chk.add_tlc(rk)
+        kv = {v['id']: v for v in rk.lines.get('VERDICT', [])}
+        if len(kv) != len(part):
+            raise ToolError('TraceParseTokens: %d verdicts for %d token sequences' % (len(kv), len(part)))
+        for rec in part:
+            v = kv[rec['id']]['verdict']
+            tcounts[v] = tcounts.get(v, 0) + 1
+            chk.traces += 1
+            if v not in ('accepted', 'rejected'):
+                name, toks = tcases[rec['id']]
+                chk.violation('%s: %s' % (name[:120], v), {'case': name, 'source': ' '.join(toks)[:3000], 'verdict': v, 'parse_msg': touts[rec['id']].get('parse_msg', '')[:300],
+                                                      'signature': {'kind': 'grammar', 'verdict': v}})
+    chk.notes['token_sequences_judged_by_the_TLA_grammar'] = tcounts
     chk.notes['verdict_counts'] = counts
     chk.notes['round_trip_texts'] = len(asts) * 4
     chk.exhaustive = True
